@@ -6,6 +6,8 @@
         x<k,k,..|->   lh_foreach_safe, deleting the current entry when its key is listed
         z<n>          lh_table_resize
         b<n>          add keys 0..n-1, report as ret the key counts at which the table grew
+     S <draws> <hsel> <size> <limit> <keys> <ops>   a B history in a fresh process whose json_c_get_random_seed()
+                          answers the scripted draws first (lh_char_hash latches its seed once per process)
      H <hsel> <key,key,..>   the table's string hash on the same bytes at 8 offsets and in a duplicate: "ok" per key
      L <lo> <hi> <step>   least count with count >= size * LH_LOAD_FACTOR for size = lo, lo+step, .. <= hi
      B <hsel> <size> <limit> <key,key,..> <op;op;..>   json_object_object_* ; keys hex[@hash]
@@ -168,8 +170,12 @@ let fnv s =
 
 let mk_alloc limit = let lim = z_of_string limit in fun n -> lim = Z0 || Z.leb n lim
 
-let run line =
+let rec run line =
   match split_on ' ' line with
+  | "S" :: _draws :: rest ->
+      (* the first answers of the seed source: the seed is one more parameter of the hash function,
+         and the model's hash is arbitrary *)
+      run (String.concat " " ("B" :: rest))
   | ["A"; size; limit; hashes; ops] ->
       let hs = Array.of_list (List.map z_of_string (String.split_on_char ',' hashes)) in
       let hash k = hs.(k) in
